@@ -850,7 +850,7 @@ func evalActionAdd(node *ActionExpression, env *Environment) Object {
 		return addObj.Add(val)
 	}
 
-	return UNDEFINED
+	return newError("invalid ADD to: %s; only top level attributes are supported", node.String())
 }
 
 func evalActionDelete(node *ActionExpression, env *Environment) Object {
@@ -880,7 +880,7 @@ func evalActionDelete(node *ActionExpression, env *Environment) Object {
 		return addObj.Delete(val)
 	}
 
-	return UNDEFINED
+	return newError("invalid DELETE from: %s; only top level attributes are supported", node.String())
 }
 
 func evalActionRemove(node *ActionExpression, env *Environment) Object {
